@@ -27,7 +27,7 @@ def _is_supp(o):
     return m == 'supp' or m.startswith('supp.')
 
 
-def fingerprint(root, digest=True, skip_attrs=()):
+def fingerprint(root, digest=True, skip_attrs=(), normalize=()):
     ids = {}
     order = []
     out = []
@@ -81,7 +81,10 @@ def fingerprint(root, digest=True, skip_attrs=()):
         else:
             out.append(('foreign', type(o).__module__, type(o).__name__))
     if digest:
-        return hashlib.sha1(repr(out).encode()).hexdigest()
+        text = repr(out)
+        for s_ in normalize:
+            text = text.replace(s_, '<ROOT>')
+        return hashlib.sha1(text.encode()).hexdigest()
     return out
 
 
@@ -121,3 +124,39 @@ class Search(object):
                     self.max_depth = max(self.max_depth, len(h2))
         self.states = len(seen)
         return self
+
+
+def bfs_levels(pool, expand, spec, init_key, max_states=20000):
+    """Level-synchronous BFS spread over a process pool.
+
+    expand((spec, hist)) -> list of (event, state_key, payload) for EVERY event enabled after hist
+    (each built on a fresh real object with the history replayed).  Returns
+    (states, transitions, max_depth, capped, payloads) where payloads is the list of
+    (hist, event, payload) for every transition whose payload is not None.
+    """
+    seen = {init_key}
+    frontier = [[]]
+    transitions = 0
+    depth = 0
+    capped = False
+    payloads = []
+    while frontier:
+        nxt = []
+        results = pool.imap(expand, [(spec, h) for h in frontier], 1) if pool else map(expand, [(spec, h) for h in frontier])
+        for h, res in zip(frontier, results):
+            if isinstance(res, BaseException):
+                raise res
+            for ev, key, payload in res:
+                transitions += 1
+                if payload is not None:
+                    payloads.append((h, ev, payload))
+                if key not in seen:
+                    if len(seen) >= max_states:
+                        capped = True
+                        continue
+                    seen.add(key)
+                    nxt.append(h + [ev])
+        if nxt:
+            depth += 1
+        frontier = nxt
+    return len(seen), transitions, depth, capped, payloads
